@@ -250,7 +250,7 @@ def finish(pid, prop, tier, seed, t0, b, hyg, ps, cases, impl, failures, disagre
     statuses = collections.Counter(x.split(' ')[0] for x in impl)
     samples = [dict(input=c['text'][:200], impl=c.get('impl', '')[:300]) for c in cases[:: max(1, len(cases) // 6)][:6]]
     cov = dict(
-        obligations=len(ps['theorems']), discharged=len(ps['closed']) if ps['ok'] else 0,
+        obligations=len(ps['theorems']), discharged=len([n_ for n_ in ps['theorems'] if n_ in ps['closed']]) if ps['ok'] else 0,
         checker_cmd='make -C /verif/coq (coq_makefile, full .vo) + coqc Properties/%s.v with Print Assumptions' % pid,
         trusted_base=TRUSTED_BASE,
         theorems=ps['theorems'], axioms=ps['open'], examples=ps['examples'],
